@@ -332,33 +332,28 @@ theorem C09_apply_quant_transparent (ext : Nat → Nat) (m : Mgr) (hD : DynInv e
       DynPostG ext (QuantDoc (decide (c = .forall_)) names v) m r m' :=
   apply_quant_transparent ext (siftContract ext) m hD op c hc hq hall u v hu hv names hsupp hdecl
 
-/-! ## what is not covered -/
+/-- C09, chaining: two decorated calls in a row (the expression `ite(g, u, v) /\ w`), the first
+result `incref`ed in between as the autoref wrapper does; a reordering request may fire in either
+call, the ledger of user-held references grows along the way. -/
+theorem C09_chained_calls_transparent (ext : Nat → Nat) (m : Mgr) (hD : DynInv ext m)
+    (g u v w : Int) (hg : HeldX ext g) (hu : HeldX ext u) (hv : HeldX ext v) (hw : HeldX ext w) :
+    ∃ r1 m1, ite g u v m = (.ok r1, m1) ∧ ∃ m1', incref r1 m1 = (.ok (), m1') ∧
+      ∃ r2 m2, apply "and" r1 (some w) none m1' = (.ok r2, m2) ∧
+        DynInv (extInc ext r1.natAbs) m2 ∧ m2.tbl.Mem r2 ∧
+        ∀ σ, denN m2.tbl r2 σ =
+          ((if denN m.tbl g σ then denN m.tbl u σ else denN m.tbl v σ) && denN m.tbl w σ) :=
+  ite_then_and_transparent ext m hD siftContract g u v w hg hu hv hw
 
-/-- C09, for the record.  Proved above for the decorated entry points of the model: `ite`,
-`apply` (binary propositional aliases, `ite`, quantifier aliases), `var`,
-`quantify`/`exist`/`forall`, `let` in its three forms (`cofactor`, `compose`, `rename`), `cube`,
-`copy_bdd` into the manager.  NOT covered by a theorem: `add_expr` (the parser's tree walk calls
-the entry points above one after the other, with intermediate results that only the walk holds;
-model in DD.Parse of C05), `load` (C12/C16), and the undecorated `image`, `preimage`,
-`autoref.BDD.find_or_add` for which the property is FALSE of the code (known findings F4a/F4c).
-The statement for `add_expr` needs a ledger that changes along the walk (each intermediate result
-is `incref`ed by the autoref wrapper): it is C08's history theorem composed with the theorems
-above, decided by correspondence at every trigger position for now. -/
-def C09_add_expr_statement : Prop :=
-  ∀ (ext : Nat → Nat) (m : Mgr), DynInv ext m → ∀ (g u v w : Int), HeldX ext g → HeldX ext u →
-    HeldX ext v → HeldX ext w →
-    -- e.g. the expression `ite(g, u, v) /\ w`: two decorated calls, the first result held only
-    -- by the walk
-    ∃ r1 m1, ite g u v m = (.ok r1, m1) ∧ ∃ r2 m2, apply "and" r1 (some w) none m1 = (.ok r2, m2) ∧
-      m2.tbl.Mem r2 ∧ ∀ σ, denN m2.tbl r2 σ =
-        ((if denN m.tbl g σ then denN m.tbl u σ else denN m.tbl v σ) && denN m.tbl w σ)
+/-! ## what is not covered
 
-/-- the part of it that is proved: the first call -/
-theorem C09_add_expr_partial (ext : Nat → Nat) (m : Mgr) (hD : DynInv ext m) (g u v : Int)
-    (hg : HeldX ext g) (hu : HeldX ext u) (hv : HeldX ext v) :
-    ∃ r1 m1, ite g u v m = (.ok r1, m1) ∧ DynInv ext m1 ∧ m1.tbl.Mem r1 ∧
-      ∀ σ, denN m1.tbl r1 σ = if denN m.tbl g σ then denN m.tbl u σ else denN m.tbl v σ := by
-  obtain ⟨r, m', he, hp⟩ := ite_transparent ext (siftContract ext) m hD g u v hg hu hv
-  exact ⟨r, m', he, hp.inv, hp.doc.1, hp.doc.2⟩
+Proved above for the decorated entry points of the model: `ite`, `apply` (binary propositional
+aliases, `ite`, quantifier aliases), `var`, `quantify`/`exist`/`forall`, `let` in its three forms
+(`cofactor`, `compose`, `rename`), `cube`, `copy_bdd` into the manager, and the chaining of calls
+with `incref` in between.  NOT covered by a theorem: `add_expr` as a whole (the parser's tree walk
+of C05 is a chain of the calls above with the intermediate results held by the autoref wrapper —
+`C09_chained_calls_transparent` is the two-call instance; the general statement is C08's history
+theorem composed with the theorems above), `load` (C12/C16), and the undecorated `image`,
+`preimage`, `autoref.BDD.find_or_add`, for which the property is FALSE of the code (known findings
+F4a/F4c).  Those are decided by correspondence at every trigger position. -/
 
 end DD
